@@ -4,21 +4,166 @@
   sufficient  LIN class of B and H is `Lin` (linear form with excitation-free coefficients)                -> proved
               `Affine` (an excitation-free term added to a linear one / masked fill with a non-zero const) -> VIOLATION
               `NonLin` with degree 1 (magnitude/angle decompositions)                                      -> undecided, exit 0
-Not decided: summation over collection slices and `sumup` index logic in getBH_level2 (sizes and positions of collections
-are runtime values) - the part of C05 about collections stays undecided by this technique.
+Structure of the two summations in getBH_level2 (necessary conditions, not the index arithmetic for all inputs):
+  SUM-AXIS   `if sumup:` reduces axis 0 of the result
+  SUM-ORDER  no pixel aggregation call is reachable after the sumup reduction (typestate over the function's flow)
+  SUM-SLICE  the collection loop sums `B[i : i+L]` into row i and deletes rows `i+1 : i+L` of axis 0, with L computed by the same
+             flattener call (callee, keywords) that built the rows in format_src_inputs; another form is reported undecided
+  MEMO       getters of the collection classes that memoise flattened views need invalidation (rules_memo.py)
+Not decided: that the index arithmetic is right for every arrangement of collections (runtime sizes).
 """
 from __future__ import annotations
 
+import ast
+
 import dim_rules
-from common import AnalysisError, Finding
+from common import AnalysisError, Finding, norm
+from flow import BaseClient, function_exits
+from repo import call_name, kw
 
 EXPLANATION = ("abstract interpretation of every registered field function with the excitation tagged: degree of B and H in the excitation "
                "must be exactly 1 (necessary) and the linearity class is computed (Lin proved / Affine violation / NonLin undecided). "
                "Decides linearity in the excitation only; collection summation index logic is not decided.")
 
 
+W = "magpylib._src.fields.field_wrap_BH"
+WREL = "magpylib/_src/fields/field_wrap_BH.py"
+
+
+def _is_sum_axis0(v, target):
+    """np.sum(<target>, axis=0, ..) / <target>.sum(axis=0, ..) -> axis node or None"""
+    if not isinstance(v, ast.Call):
+        return None
+    f = v.func
+    if isinstance(f, ast.Attribute) and f.attr == "sum":
+        if isinstance(f.value, ast.Name) and f.value.id == "np" and v.args and ast.unparse(v.args[0]) == target:
+            return kw(v, "axis", v.args[1] if len(v.args) > 1 else ast.Constant(None))
+        if ast.unparse(f.value) == target:
+            return kw(v, "axis", v.args[0] if v.args else ast.Constant(None))
+    return None
+
+
+class _OrderClient(BaseClient):
+    """typestate: once the sum over sources (sumup) has been taken, no non-linear per-source step (pixel_agg) may follow"""
+    def __init__(self, sum_stmts, agg_name):
+        self.sum_stmts, self.agg_name, self.bad = sum_stmts, agg_name, []
+
+    def call_may_raise(self, call):
+        return False
+
+    def transfer(self, s, S):
+        if "SUMMED" in S:
+            for c in ast.walk(s):
+                if isinstance(c, ast.Call) and isinstance(c.func, ast.Name) and c.func.id == self.agg_name and s not in self.bad:
+                    self.bad.append(s)
+        if id(s) in self.sum_stmts:
+            S = S | {"SUMMED"}
+        return S
+
+
+def level2_superposition(repo, res):
+    """SUM-AXIS / SUM-ORDER / SUM-SLICE: structure of the two summations in getBH_level2"""
+    fn = repo.func(W, "getBH_level2")
+    # ---- sumup: `if sumup: B = np.sum(B, axis=0, ..)`
+    sum_stmts = {}
+    for n in ast.walk(fn):
+        if isinstance(n, ast.If) and any(isinstance(x, ast.Name) and x.id == "sumup" for x in ast.walk(n.test)):
+            for s in n.body:
+                if isinstance(s, ast.Assign) and len(s.targets) == 1 and isinstance(s.targets[0], ast.Name):
+                    ax = _is_sum_axis0(s.value, s.targets[0].id)
+                    if ax is not None:
+                        sum_stmts[id(s)] = (s, ax)
+    res.require(sum_stmts, "anchor vanished: no `if sumup: B = np.sum(B, axis=..)` reduction in getBH_level2")
+    for s, ax in sum_stmts.values():
+        ok = isinstance(ax, ast.Constant) and ax.value == 0
+        res.ob(f"SUM-AXIS:{norm(s)}", ok, {"rule": "SUM-AXIS", "stmt": norm(s), "axis": ast.unparse(ax)})
+        if not ok:
+            res.add(Finding("SUM-AXIS", WREL, "getBH_level2", s, "sumup must reduce the source axis (axis 0 of the (source, path, sensor, pixel.., 3) result)", s.lineno))
+    agg = None
+    for n in ast.walk(fn):
+        if isinstance(n, ast.Assign) and isinstance(n.value, ast.Call) and call_name(n.value) == "check_format_pixel_agg" and isinstance(n.targets[0], ast.Name):
+            agg = n.targets[0].id
+    res.require(agg, "anchor vanished: pixel_agg resolver call in getBH_level2")
+    c = _OrderClient(sum_stmts, agg)
+    exits, nst = function_exits(fn, c)
+    n_agg = sum(1 for x in ast.walk(fn) if isinstance(x, ast.Call) and isinstance(x.func, ast.Name) and x.func.id == agg)
+    res.require(n_agg >= 1, "anchor vanished: pixel aggregation call sites")
+    res.ob("SUM-ORDER:sumup after pixel_agg", not c.bad, {"rule": "SUM-ORDER", "aggregation_sites": n_agg, "statements": nst, "sumup_statements": len(sum_stmts)})
+    for s in c.bad:
+        res.add(Finding("SUM-ORDER", WREL, "getBH_level2", s, "pixel aggregation is applied after the sum over sources: for reducers such as min/max/std "
+                        "agg(sum_i B_i) != sum_i agg(B_i), so sumup=True is no longer the sum of the sumup=False result", s.lineno))
+    # ---- collection rows: B[i] = np.sum(B[i:i+L], axis=0); B = np.delete(B, np.s_[i+1:i+L], 0)
+    forms = 0
+    for loop in ast.walk(fn):
+        if not (isinstance(loop, ast.For) and isinstance(loop.iter, ast.Call) and call_name(loop.iter) == "enumerate"
+                and isinstance(loop.target, ast.Tuple) and len(loop.target.elts) == 2):
+            continue
+        i, src = (ast.unparse(e) for e in loop.target.elts)
+        for cond in ast.walk(loop):
+            if not (isinstance(cond, ast.If) and isinstance(cond.test, ast.Call) and call_name(cond.test) == "isinstance"
+                    and ast.unparse(cond.test.args[0]) == src and "Collection" in ast.unparse(cond.test.args[1])):
+                continue
+            L = flat = None
+            store = delete = None
+            for s in cond.body:
+                if isinstance(s, ast.Assign) and isinstance(s.value, ast.Call) and call_name(s.value) == "len" and isinstance(s.targets[0], ast.Name) \
+                        and s.value.args and isinstance(s.value.args[0], ast.Call):
+                    L, flat = s.targets[0].id, s.value.args[0]
+                if isinstance(s, ast.Assign) and isinstance(s.targets[0], ast.Subscript) and isinstance(s.value, ast.Call) and call_name(s.value) in ("sum", "np.sum"):
+                    store = s
+                if isinstance(s, ast.Assign) and isinstance(s.value, ast.Call) and call_name(s.value) in ("delete", "np.delete"):
+                    delete = s
+            if not (L and store is not None and delete is not None):
+                continue
+            forms += 1
+            probs = []
+            B = ast.unparse(store.targets[0].value)
+            if ast.unparse(store.targets[0].slice) != i:
+                probs.append((store, f"the collection's sum is written to row `{ast.unparse(store.targets[0].slice)}`, not to the collection's own row `{i}`"))
+            arg = store.value.args[0] if store.value.args else None
+            ax = kw(store.value, "axis", store.value.args[1] if len(store.value.args) > 1 else None)
+            hi_ok = (f"{i} + {L}", f"{L} + {i}")
+            if not (isinstance(arg, ast.Subscript) and ast.unparse(arg.value) == B and isinstance(arg.slice, ast.Slice)
+                    and arg.slice.lower is not None and ast.unparse(arg.slice.lower) == i
+                    and arg.slice.upper is not None and ast.unparse(arg.slice.upper) in hi_ok and arg.slice.step is None):
+                probs.append((store, f"the summed rows must be exactly `{B}[{i} : {i} + {L}]` (the collection's {L} flattened sources start at its own row)"))
+            if not (isinstance(ax, ast.Constant) and ax.value == 0):
+                probs.append((store, "the collection rows are summed along the source axis (axis=0)"))
+            dv = delete.value
+            dsl = dv.args[1] if len(dv.args) > 1 else None
+            dax = kw(dv, "axis", dv.args[2] if len(dv.args) > 2 else None)
+            if isinstance(dsl, ast.Subscript) and ast.unparse(dsl.value) == "np.s_":
+                dsl = dsl.slice
+            elif isinstance(dsl, ast.Call) and call_name(dsl) == "slice" and len(dsl.args) == 2:
+                dsl = ast.Slice(lower=dsl.args[0], upper=dsl.args[1], step=None)
+            if not (ast.unparse(delete.targets[0]) == B and dv.args and ast.unparse(dv.args[0]) == B and isinstance(dsl, ast.Slice)
+                    and dsl.lower is not None and ast.unparse(dsl.lower) in (f"{i} + 1", f"1 + {i}")
+                    and dsl.upper is not None and ast.unparse(dsl.upper) in hi_ok and dsl.step is None
+                    and isinstance(dax, ast.Constant) and dax.value == 0):
+                probs.append((delete, f"the removed rows must be exactly `{i} + 1 : {i} + {L}` of axis 0 (all rows of the collection but its own)"))
+            if delete.lineno < store.lineno:
+                probs.append((delete, "rows are removed before they are summed"))
+            # the length must come from the flattener that built the rows (format_src_inputs)
+            fsi = repo.func("magpylib._src.utility", "format_src_inputs")
+            built = [c2 for c2 in ast.walk(fsi) if isinstance(c2, ast.Call) and call_name(c2) == call_name(flat)]
+            same = [c2 for c2 in built if [ast.unparse(k.value) for k in c2.keywords] == [ast.unparse(k.value) for k in flat.keywords]]
+            if not (ast.unparse(flat.args[0]) == src if flat.args else False) or not same:
+                probs.append((flat, f"the number of rows of a collection ({norm(flat)}) is not computed by the flattener call that built the rows in format_src_inputs"))
+            res.ob(f"SUM-SLICE:{norm(store)}", not probs, {"rule": "SUM-SLICE", "loop": norm(loop.iter), "store": norm(store), "delete": norm(delete), "length": norm(flat)})
+            for node, msg in probs:
+                res.add(Finding("SUM-SLICE", WREL, "getBH_level2", node, msg, node.lineno))
+    if not forms:
+        res.undecided.append("SUM-SLICE: the collection row summation in getBH_level2 is not in the recognised sum-slice/delete-slice form; its index logic is not decided")
+    import rules_memo
+    rules_memo.run(repo, res, rule="MEMO", modfilter=lambda m: m.endswith("class_Collection"))
+    return forms
+
+
 def run(repo, res, tier):
-    res.rules = ["excitation degree of B,H == 1", "LIN class: Lin proved, Affine violation, NonLin undecided"]
+    res.rules = ["excitation degree of B,H == 1", "LIN class: Lin proved, Affine violation, NonLin undecided",
+                 "SUM-AXIS/SUM-ORDER: sumup reduces axis 0 after pixel aggregation", "SUM-SLICE: collection rows summed and removed consistently",
+                 "MEMO: flattened collection views are not memoised without invalidation"]
+    level2_superposition(repo, res)
     results = dim_rules.run_fields(fields="BH")
     res.require(len(results) >= 20, f"only {len(results)} runs: registry anchors changed")
     errors = []
